@@ -1568,6 +1568,25 @@ impl IdmServerProxyWriteTransaction<'_> {
         }
         */
 
+        // The code may have been issued while the account was valid: the exchange hands out
+        // tokens, so the account must be inside its validity window now.
+        let account_entry = self
+            .qs_write
+            .internal_search_uuid(code_xchg.account_uuid)
+            .map_err(|_| Oauth2Error::AccessDenied)?;
+        if !crate::idm::account::Account::check_within_valid_time(
+            ct,
+            account_entry
+                .get_ava_single_datetime(Attribute::AccountValidFrom)
+                .as_ref(),
+            account_entry
+                .get_ava_single_datetime(Attribute::AccountExpire)
+                .as_ref(),
+        ) {
+            security_info!("Account has expired or is not yet valid, not allowing to proceed");
+            return Err(Oauth2Error::AccessDenied);
+        }
+
         // ==== We are now GOOD TO GO! ====
         // Grant the access token response.
         let parent_session_id = Some(code_xchg.session_id);
